@@ -220,16 +220,19 @@ def l4Regular (pr : Nat) (frag : Bool) : L4 → Bool
 
 /-- The frame description is one the parser produces for a complete frame: an LLC header only behind a length field, nothing
     parsed behind an LLC header without the zero-OUI SNAP header, an IPv4 / ARP header exactly when the (encapsulated) Ethernet
-    type says so, a transport header of the kind the IP protocol says (unless the packet is a fragment) — and the ARP opcode
-    fits in 8 bits (`extract_arp_defect` shows what happens otherwise). -/
-def regular (p : PHdr) : Bool :=
+    type says so, a transport header of the kind the IP protocol says (unless the packet is a fragment) — and, when `from_packet`
+    guards its ARP branch (`arpGuard`), the ARP opcode fits in 8 bits (`extract_arp_defect` shows what happens otherwise). -/
+def regularG (arpGuard : Bool) (p : PHdr) : Bool :=
   (match p.llc with
    | some l => decide (p.typ < 0x600) && (l.snapOui == some 0 || (p.vlan.isNone && p.l3 == L3.other))
    | none => true) &&
   (match p.l3 with
    | .ipv4 _ _ pr _ frag l4 => Spec.dlTypeOf p == 0x0800 && l4Regular pr frag l4
-   | .arp op _ _ => Spec.dlTypeOf p == 0x0806 && decide (op ≤ 255)
+   | .arp op _ _ => Spec.dlTypeOf p == 0x0806 && (!arpGuard || decide (op ≤ 255))
    | .other => Spec.dlTypeOf p != 0x0800 && Spec.dlTypeOf p != 0x0806)
+
+/-- `regularG` for the code at `/repo` HEAD (guarded ARP branch) -/
+def regular (p : PHdr) : Bool := regularG true p
 
 /-- the IP ToS byte of the frame (0 when there is no IPv4 header) -/
 def pktTos (p : PHdr) : Nat := match p.l3 with
@@ -259,19 +262,19 @@ structure ExtractOk (p : PHdr) (o : OHeaders) (h : Spec.Headers) : Prop where
   tpHere : h.dlType = 0x0800 → isL4Proto h.nwProto = true → o.tpSrc.isSome ∧ o.tpDst.isSome
 
 macro "c03_leaf" hr:ident : tactic => `(tactic|
-  (simp [regular, Spec.dlTypeOf, Spec.etherType, l4Regular, isL4Proto] at $hr:ident
+  (simp [regularG, Spec.dlTypeOf, Spec.etherType, l4Regular, isL4Proto] at $hr:ident
    constructor <;>
-     simp [extract, Spec.headers, Spec.zeroL3, Spec.dlTypeOf, Spec.etherType, DL_TYPE_NOT_ETH, VLAN_NONE, FieldAgrees, pktTos, isL4Proto, $hr:ident] <;>
+     simp [extractG, Spec.headers, Spec.zeroL3, Spec.dlTypeOf, Spec.etherType, DL_TYPE_NOT_ETH, VLAN_NONE, FieldAgrees, pktTos, isL4Proto, $hr:ident] <;>
      (try split) <;> (try simp_all) <;> (try omega)))
 
 macro "c03_leaf2" hr:ident hlt:ident : tactic => `(tactic|
-  (simp [regular, Spec.dlTypeOf, Spec.etherType, l4Regular, isL4Proto, $hlt:ident] at $hr:ident
+  (simp [regularG, Spec.dlTypeOf, Spec.etherType, l4Regular, isL4Proto, $hlt:ident] at $hr:ident
    constructor <;>
-     simp [extract, Spec.headers, Spec.zeroL3, Spec.dlTypeOf, Spec.etherType, DL_TYPE_NOT_ETH, VLAN_NONE, FieldAgrees, pktTos, isL4Proto, $hr:ident, $hlt:ident] <;>
+     simp [extractG, Spec.headers, Spec.zeroL3, Spec.dlTypeOf, Spec.etherType, DL_TYPE_NOT_ETH, VLAN_NONE, FieldAgrees, pktTos, isL4Proto, $hr:ident, $hlt:ident] <;>
      (try split) <;> (try simp_all) <;> (try omega)))
 
-theorem extract_ok_aux (p : PHdr) (port : Nat) (hr : regular p = true) :
-    ExtractOk p (extract p (some port)) (Spec.headers p port) := by
+theorem extract_ok_auxG (g : Bool) (p : PHdr) (port : Nat) (hr : regularG g p = true) :
+    ExtractOk p (extractG g true p (some port)) (Spec.headers p port) := by
   obtain ⟨src, dst, typ, llc, vlan, l3⟩ := p
   cases llc with
   | none =>
@@ -279,13 +282,13 @@ theorem extract_ok_aux (p : PHdr) (port : Nat) (hr : regular p = true) :
     | none =>
       cases l3 with
       | other => c03_leaf hr
-      | arp op s d => c03_leaf hr
+      | arp op s d => cases g <;> c03_leaf hr
       | ipv4 s d pr tos frag l4 =>
         cases frag <;> cases l4 <;> c03_leaf hr
     | some v =>
       cases l3 with
       | other => c03_leaf hr
-      | arp op s d => c03_leaf hr
+      | arp op s d => cases g <;> c03_leaf hr
       | ipv4 s d pr tos frag l4 =>
         cases frag <;> cases l4 <;> c03_leaf hr
   | some l =>
@@ -297,34 +300,37 @@ theorem extract_ok_aux (p : PHdr) (port : Nat) (hr : regular p = true) :
         | none =>
           cases l3 with
           | other => c03_leaf2 hr hlt
-          | arp op s d => c03_leaf2 hr hlt
+          | arp op s d => cases g <;> c03_leaf2 hr hlt
           | ipv4 s d pr tos frag l4 =>
             cases frag <;> cases l4 <;> c03_leaf2 hr hlt
         | some v =>
           cases l3 with
           | other => c03_leaf2 hr hlt
-          | arp op s d => c03_leaf2 hr hlt
+          | arp op s d => cases g <;> c03_leaf2 hr hlt
           | ipv4 s d pr tos frag l4 =>
             cases frag <;> cases l4 <;> c03_leaf2 hr hlt
       · have hs' : (oui == some 0) = false := by simpa using hs
-        simp [regular, hs', hlt] at hr
+        simp [regularG, hs', hlt] at hr
         obtain ⟨⟨h2, h3⟩, h4⟩ := hr
         subst h3
         cases vlan with
         | some v => simp at h2
         | none =>
           constructor <;>
-            simp [extract, Spec.headers, Spec.zeroL3, Spec.dlTypeOf, Spec.etherType, DL_TYPE_NOT_ETH, VLAN_NONE, FieldAgrees, pktTos, isL4Proto, hlt, hs]
-    · simp [regular, hlt] at hr
+            simp [extractG, Spec.headers, Spec.zeroL3, Spec.dlTypeOf, Spec.etherType, DL_TYPE_NOT_ETH, VLAN_NONE, FieldAgrees, pktTos, isL4Proto, hlt, hs]
+    · simp [regularG, hlt] at hr
+
+theorem extract_ok_aux (p : PHdr) (port : Nat) (hr : regular p = true) :
+    ExtractOk p (extract p (some port)) (Spec.headers p port) := extract_ok_auxG true p port hr
 
 theorem FieldAgrees.of_isSome {v : Option Nat} {x : Nat} (h : FieldAgrees v x) (hs : v.isSome = true) : v = some x := by
   rcases h with h | ⟨h, _⟩
   · exact h
   · simp [h] at hs
 
-theorem extract_agree (p : PHdr) (port : Nat) (hr : regular p = true) (ht : pktTos p % 4 = 0) :
-    Agree (extract p (some port)) (Spec.headers p port) := by
-  have e := extract_ok_aux p port hr
+theorem extract_agreeG (g : Bool) (p : PHdr) (port : Nat) (hr : regularG g p = true) (ht : pktTos p % 4 = 0) :
+    Agree (extractG g true p (some port)) (Spec.headers p port) := by
+  have e := extract_ok_auxG g p port hr
   refine ⟨e.inPort, e.dlSrc, e.dlDst, e.dlVlan, e.dlVlanPcp, e.dlType, ?_, ?_, ?_, ?_⟩
   · intro hd
     obtain ⟨a, b, c⟩ := e.nwHere hd
@@ -338,13 +344,16 @@ theorem extract_agree (p : PHdr) (port : Nat) (hr : regular p = true) (ht : pktT
       congr 1; omega
     · simp at h2
   · rcases e.nwTos with h2 | ⟨_, h2⟩
-    · cases hq : (extract p (some port)).nwTos with
+    · cases hq : (extractG g true p (some port)).nwTos with
       | none => simp [hq] at h2
       | some t => simp [hq] at h2; omega
     · omega
   · intro hd hl
     obtain ⟨a, b⟩ := e.tpHere hd hl
     exact ⟨e.tpSrc.of_isSome a, e.tpDst.of_isSome b⟩
+
+theorem extract_agree (p : PHdr) (port : Nat) (hr : regular p = true) (ht : pktTos p % 4 = 0) :
+    Agree (extract p (some port)) (Spec.headers p port) := extract_agreeG true p port hr ht
 
 /-- `matches_iff`, assembled: the lookup test of the code equals the standard's matching on the extracted 12-tuple -/
 theorem wire_accepts_packet (r : OfMatch) (p : PHdr) (port : Nat) (hp : PrereqExact r) (ht : r.nwTos % 4 = 0)
